@@ -218,6 +218,11 @@ def run(ctx):
             sig = "F5-readd-while-removal-queued" if c07.f5(cases[i], res[i][0]) else None
             if sig is None and cases[i]["retention"] and c07.recycled_from_queue(res[i][0]):
                 sig = "F30-recycle-retried-from-error-queue"
+            # F19 under 'maximum': the merge of a queued 'removed' with the re-'added' reads the
+            # expected-state cache, which a successful retry of an older entry has just regressed
+            if sig is None and cases[i]["remediation"] == "maximum" and c07.lifecycle_has_readd(cases[i], res[i][0]) \
+                    and c07.older_modified_retried_while_younger_queued(cases[i], res[i][0]):
+                sig = "F19-complete-cache-regresses-on-retry"
             violations.append({"sig": sig, "what": f"under policy {cases[i]['remediation']} the drained client differs from the failure-free state (case {i})", **rep})
         elif not c_ok:
             corr.append({"what": f"corr_client (remediation {cases[i]['remediation']}): client model != GenericClient on case {i}", **rep})
